@@ -165,7 +165,7 @@ end
 
 /-- `search_jsx_pragma` over the leading comments of one position -/
 def pragmaOfComments (cs : List String) : Option String :=
-  cs.findSome? fun c => (pragmaOfComment c.toList).map String.ofList
+  cs.findSome? fun c => (pragmaOfCommentText c.toList).map String.ofList
 
 def scanPragmas (env : Env) (st : St) : St :=
   if !env.hasComments then st else
